@@ -32,9 +32,32 @@ def sess_retyped(seed, target=0):
                     c['t'] = cps(t)
     evs, doc, text = session.record_import(lines)
     if doc is not None:
-        alltypes = sorted({uncps(c['t']) for e in lines if e['ev'] == 'header' for c in e['cells']})
-        evs.append(session.record_call(doc, {'op': 'dumps', 'args': session.dumps_args(types=alltypes), 'exact': True}))
-        evs.append(session.record_call(doc, {'op': 'mcount', 'args': {}}))
+        # barlines are detected identically under every spine type: the same rows under each of the other types give the same
+        # measure index and the same shared tokens (compared between REAL imports, whatever the measure rule is)
+        import copy
+        import kernpy as kp
+        same_index, same_shared = True, True
+        shared = lambda d: [(n.token.category.name, n.token.encoding) for st in d.tree.stages[1:] for n in st  # noqa
+                            if n.token.category.name in ('BARLINES', 'EMPTY', 'CLEF', 'KEY_SIGNATURE', 'TIME_SIGNATURE', 'METER_SYMBOL', 'STRUCTURAL', 'BOUNDING_BOXES')
+                            and not n.token.encoding.startswith('**')]
+        for t2 in TARGETS:
+            if t2 == t:
+                continue
+            l2 = copy.deepcopy(lines)
+            for e in l2:
+                if e['ev'] == 'header':
+                    for c in e['cells']:
+                        if uncps(c['t']) not in gen.KERNLIKE:
+                            c['t'] = cps(t2)
+            try:
+                d2, _ = kp.loads(session.render(l2))
+                same_index = same_index and list(d2.measure_start_tree_stages) == list(doc.measure_start_tree_stages)
+                same_shared = same_shared and shared(d2) == shared(doc)
+            except Exception:  # noqa
+                same_index = same_shared = False
+        snap = evs[-1]['snap']
+        evs.append({'ev': 'call', 'op': 'flag', 'name': 'retype.same_measure_index_under_every_type', 'value': same_index, 'args': {}, 'snap': snap})
+        evs.append({'ev': 'call', 'op': 'flag', 'name': 'retype.same_shared_tokens_under_every_type', 'value': same_shared, 'args': {}, 'snap': snap})
 
     return dp.finish_session(lines, evs, text, seed, dp.features(lines) | {'as ' + t})
 
